@@ -35,6 +35,15 @@ Theorem C20_tours_quote_exact : forall s route j,
   fit_tours (apply_ins s route j) - fit_tours s = quote_tours route.
 Proof. exact tours_quote_exact. Qed.
 
+(* multi-activity (pickup-and-delivery) jobs: the quote is the sum of the per-activity quotes on the shadow tours, and it
+   equals the change of the tour's distance once all activities are inserted (the real eval_multi result's cost is compared
+   with this sum on every run of `./check C06`) *)
+Theorem C20_multi_distance_quote_exact : forall dur dist steps t,
+  steps <> [] -> steps_ok dur t steps ->
+  (has_jobs t = false -> (length t <= 2)%nat /\ fst (hd (0%nat, mkAct 0 0 0 0 0 dzero 0 0) steps) = 0%nat) ->
+  total_distance dist (apply_steps dur t steps) - route_distance dist t = multi_leg dur dist t steps.
+Proof. intros. unfold route_distance. apply multi_leg_exact; assumption. Qed.
+
 Theorem C20_value_quote_exact : forall value s route j,
   (forall k, route = Some k -> (k < length (so_routes s))%nat) ->
   fit_value value (apply_ins s route j) - fit_value value s = quote_value value j.
